@@ -26,6 +26,7 @@ func init() {
 				"R7.exclusive":   "raw I/O on the shared connection only under the exclusive lock (imported lock-set obligations)",
 				"R4.bounds":      "index/slice/assertion obligations in the shim package",
 				"R4.nil":         "use-before-error-check (constructor) and json-null obligations",
+				"R8.hidden":      "with the hiding mode off no identity of the underlying agent is left out of a listing (C09's cache-write and listing rules, imported)",
 			},
 		},
 		Run: runC10,
@@ -61,6 +62,19 @@ func runC10(c *Ctx) {
 	// a still-valid in-memory certificate is never discarded: the pruning relies on the validity test, whose nil / clamp /
 	// direction obligations (C07.R5) are therefore obligations here too
 	c.WithRules(map[string]string{"R5.validity": "R6.deletions"}, func() { checkValidity(c) })
+	// "the identities of the underlying agent are all listed": with the hiding mode off nothing is hidden - the rules of
+	// C09 about when the hidden-certificate cache is written and what the listings do with it, imported
+	{
+		seen, notes := map[string]bool{}, len(c.Notes)
+		for k, v := range c.Analysed {
+			seen[k] = v
+		}
+		nHid := c.WithRulesKept(map[string]string{"R1.cachewrites": "R8.hidden", "R2.listing": "R8.hidden"}, func(construct, detail string) bool {
+			return !strings.HasPrefix(construct, "floor:")
+		}, func() { runC09(c) })
+		c.Analysed, c.Notes = seen, c.Notes[:notes]
+		c.Floor("R8.hidden", nHid, 4, "cache-write and listing obligations of the hiding mode")
+	}
 	// relayed bytes are not interleaved with another operation's: raw I/O on the shared connection only under the
 	// exclusive lock (the lock-set obligations of C11 that concern the connection)
 	shimRawRelayExclusive(c, m, "R7.exclusive")
